@@ -631,7 +631,7 @@ def _parents(p):
 
 # ---------------------------------------------------------------- C10
 def name_ok(n):
-    return n not in (b"", b".", b"..") and b"/" not in n and b"\\" not in n
+    return n not in (b"", b".", b"..") and b"/" not in n and b"\\" not in n and all(c >= 0x20 and c != 0x7f for c in n)
 
 
 def o_c10(recs):
